@@ -147,7 +147,7 @@ fn vp_native_text_helpers_decode_whole_body() {
     // precedence through the public builders: charset of the header when known, else the default configured on the session or
     // on the request (the request wins over its session), else Windows-1252; text_with / text_utf8 ignore all of it
     let body: &[u8] = b"\xC1\xE2\xE5 caf\xE9 \x82\xA0";
-    for header in [None, Some("koi8-r"), Some("Shift_JIS"), Some("no-such-charset")] { for sdef in [None, Some(charsets::KOI8_R), Some(charsets::WINDOWS_1251)] { for rdef in [None, Some(Some(charsets::ISO_8859_2)), Some(None)] {
+    for header in [None, Some("koi8-r"), Some("Shift_JIS"), Some("no-such-charset"), Some("latin1"), Some("ISO-8859-1"), Some("windows-1252"), Some("us-ascii"), Some("UTF-8")] { for sdef in [None, Some(charsets::KOI8_R), Some(charsets::WINDOWS_1251), Some(charsets::UTF_8), Some(charsets::WINDOWS_1252)] { for rdef in [None, Some(Some(charsets::ISO_8859_2)), Some(Some(charsets::UTF_8)), Some(Some(charsets::WINDOWS_1252)), Some(None)] {
         let mut s = crate::Session::new(); s.default_charset(sdef);
         let mut b = s.get("http://a.test/");
         if let Some(r) = rdef { b = b.default_charset(r); }
